@@ -9,7 +9,8 @@ RULE = ("every adapter (callback_await / callback_await_alloc, make_promise, dis
         "second of two trailer-tagged counting storages / cocls::reusable_storage_mtsafe) x future type (future<counted>, future<void>, "
         "factory returning future<counted&>) x caller mode (plain thread / coro_queue active) x converter (all six future_conv "
         "specialisations; returns / throws / resolves with an exception / declines / forwards the promise to a third thread) x optional "
-        "competing resolver on a third thread (value / exception / p(drop)); engine adapt* = real threads, one runnable at a time, "
+        "competing resolver on a third thread (value / exception / p(drop)) x optional re-arming call_fn_future_awaiter handler whose second "
+        "operation a third thread resolves; engine adapt* = real threads, one runnable at a time, "
         "yield at every COCLS_VERIF_POINT; engine adseq* = the same scenarios without the controller on one fresh thread; random, bursty, "
         "resolver-first and registrar-first schedules, thorough adds every schedule prefix of length 8-11 for the two-thread "
         "configurations and every prefix of length 7 over three threads for the competitor; non-trivial = valid configuration and "
@@ -44,7 +45,7 @@ def configs():
     return out
 
 
-def mk(engine, name, ad, mode, stor, k, d, conv, sched, cbthrow=0, k2=None):
+def mk(engine, name, ad, mode, stor, k, d, conv, sched, cbthrow=0, k2=None, re=None):
     ops = [[1, ad, mode, stor], [2, k, d]]
     if conv is not None:
         ops.append([3] + list(conv))
@@ -52,6 +53,8 @@ def mk(engine, name, ad, mode, stor, k, d, conv, sched, cbthrow=0, k2=None):
         ops.append([4, 1])
     if k2 is not None:
         ops.append([5, k2[0], k2[1]])
+    if re is not None:
+        ops.append([6, re[0], re[1]])
     if engine.startswith("adapt"):
         ops.append([9] + list(sched))
     return Case(engine, name, ops)
@@ -69,8 +72,8 @@ def rand_conv(rng, ty, ad, always=False):
     return cv + [spec] if rng.random() < 0.8 else cv
 
 
-def nthreads(conv, k2):
-    return 3 if (k2 is not None or (conv is not None and conv[0] == 4)) else 2
+def nthreads(conv, k2, re=None):
+    return 3 if (k2 is not None or re is not None or (conv is not None and conv[0] == 4)) else 2
 
 
 def rand_sched(rng, L, nthr=2):
@@ -115,7 +118,18 @@ def gen_ctl(seed, tier):
                 ty = TYPES[(mode + stor + k) % 3]
                 cases.append(mk("adapt" + ty, "t%d" % j, 0, mode, stor, k, rng.randint(1, 999), None,
                                 rand_sched(rng, 14) if mode == 2 else [], cbthrow=1)); j += 1
-    n = 420 if tier == "quick" else 6000
+    # call_fn_future_awaiter whose handler re-arms the awaiter with an operation that is still pending when it returns:
+    # the handler must run once per awaited operation
+    reps = 2 if tier == "quick" else 12
+    for mode in range(4):
+        for k in (0, 1, 2):
+            for k3 in (0, 1, 2):
+                for r in range(reps if mode == 2 else 1):
+                    ty = TYPES[(mode + k + k3 + r) % 3]
+                    co = "c" if (j % 2) else ""
+                    cases.append(mk("adapt" + co + ty, "e%d" % j, 4, mode, 0, k, rng.randint(1, 999), None,
+                                    rand_sched(rng, rng.choice([8, 16, 24]), 3), re=(k3, rng.randint(1, 999)))); j += 1
+    n = 400 if tier == "quick" else 6000
     two = [c for c in configs() if c[1] == 2]
     for i in range(n):
         ad, mode, stor = two[i % len(two)] if rng.random() < 0.8 else rng.choice(two)
@@ -146,12 +160,16 @@ def gen_ctl(seed, tier):
             for (k, k2) in ((0, (2, 0)), (2, (0, 9)), (1, (0, 9))):
                 for pre in itertools.product(range(3), repeat=7):
                     cases.append(mk("adapt", "y%d" % x, ad, 2, 0, k, 5, None, pre, k2=k2)); x += 1
+        for (k, k3) in ((0, 0), (0, 2), (1, 0)):      # re-arming handler: every schedule prefix of length 8 over three threads
+            for pre in itertools.product(range(3), repeat=8):
+                cases.append(mk("adapt", "z%d" % x, 4, 2, 0, k, 5, None, pre, re=(k3, 9))); x += 1
     # malformed stream
     bad = [[[1, 1, 0, 0], [2, 0, 1]], [[1, 2, 2, 1], [2, 0, 1]], [[1, 7, 2, 0], [2, 0, 1]], [[2, 0, 1]], [[1, 0, 2, 0]],
            [[1, 0, 4, 0], [2, 0, 1]], [[1, 0, 2, 0], [2, 3, 1]], [[1, 3, 2, 0], [2, 0, 1], [3, 2, 2]], [[1, 3, 2], [2, 0, 1]], [],
            [[1, 0, 2, 5], [2, 0, 1]], [[1, 0, 3, 0], [2, 0, 1], [5, 0, 1]], [[1, 0, 2, 0], [2, 0, 1], [5, 3, 1]],
            [[1, 3, 2, 0], [2, 0, 1], [3, 0, 2, 4]], [[1, 3, 2, 0], [2, 0, 1], [3, 3, 2, 0]], [[1, 3, 2, 0], [2, 0, 1], [3, 2, 2]],
-           [[1, 3, 2, 0], [2, 0, 1], [3, 4, 2, 3], [5, 0, 1]], [[1, 3, 2, 0], [2, 0, 1], [3, 5, 2, 3]]]
+           [[1, 3, 2, 0], [2, 0, 1], [3, 4, 2, 3], [5, 0, 1]], [[1, 3, 2, 0], [2, 0, 1], [3, 5, 2, 3]],
+           [[1, 0, 2, 0], [2, 0, 1], [6, 0, 1]], [[1, 4, 2, 0], [2, 0, 1], [5, 0, 1], [6, 0, 1]], [[1, 4, 2, 0], [2, 0, 1], [6, 3, 1]]]
     for b, ops in enumerate(bad):
         cases.append(Case("adapt", "m%d" % b, ops + [[9, 0, 1]]))
     cases.append(Case("adaptv", "m90", [[1, 3, 2, 0], [2, 0, 1], [3, 0, 2, 1], [9, 0]]))
@@ -172,6 +190,9 @@ def gen_seq(seed, tier):
                     cv = rand_conv(rng, ty, ad, True) if ad == 3 else None
                     k2 = (rng.choice([0, 1, 2]), rng.randint(1, 99)) if (mode == 2 and rng.random() < 0.3 and not (cv and cv[0] == 4)) else None
                     cases.append(mk("adseq" + co + ty, "q%d" % j, ad, mode, stor, k, rng.randint(1, 999), cv, [], k2=k2)); j += 1
+    for mode in range(4):
+        for k in (0, 1, 2):
+            cases.append(mk("adseq" + ("c" if k % 2 else "") + TYPES[(mode + k + 1) % 3], "qe%d" % j, 4, mode, 0, k, rng.randint(1, 999), None, [], re=((mode + k) % 3, rng.randint(1, 99)))); j += 1
     for mode in range(4):
         for k in (0, 1, 2):
             cases.append(mk("adseq" + TYPES[(mode + k) % 3], "qt%d" % j, 0, mode, mode % 2, k, rng.randint(1, 999), None, [], cbthrow=1)); j += 1
